@@ -198,6 +198,17 @@ func RandomGenesis(r *rand.Rand) *Genesis {
 		}
 		g.Validators = append(g.Validators, x)
 	}
+	// boundary of `CommitteesDistinct` (hypothesis of C12.never_wedged, established by the loader since 0262f16):
+	// now and then one validator lists a committee twice, sometimes together with a repeated validator address
+	// further down the list (the loader reports whichever comes first in file order)
+	if len(g.Validators) > 0 && r.Intn(25) == 0 {
+		i := r.Intn(len(g.Validators))
+		cs := g.Validators[i].Committees
+		g.Validators[i].Committees = append(append([]uint64{}, cs...), cs[r.Intn(len(cs))])
+		if r.Intn(3) == 0 {
+			g.Validators = append(g.Validators, g.Validators[r.Intn(len(g.Validators))])
+		}
+	}
 	return g
 }
 
